@@ -461,6 +461,9 @@ def translate_func(name, rt, args, names, va, body):
                 elif op == 'shl': e = '(%s)((%s)%s << %s)' % (ct, wide(t), a, b2)
                 elif op == 'lshr': e = '(%s)((%s)%s >> %s)' % (ct, wide(t), a, b2)
                 elif op == 'ashr': e = '(%s)((%s)%s >> %s)' % (ct, swide(t), scast(t, a), b2)
+                elif op in ('udiv', 'urem') and bits in (32, 64) and re.match(r'^\(\(uint(32|64)_t\)0x[0-9a-f]+ULL\)$', b2) and int(re.search(r'0x([0-9a-f]+)', b2).group(1), 16) > 2:
+                    # division by a constant: a macro the prelude can turn into "the q with q*c <= x < q*c + c" (Unit(cbmc_defines=['VERIF_DIVC']))
+                    e = '(%s)VERIF_%sC%d(%s, %s)' % (ct, op.upper(), bits, a, b2)
                 elif op == 'udiv': e = '(%s)((%s)%s / (%s)%s)' % (ct, wide(t), a, wide(t), b2)
                 elif op == 'urem': e = '(%s)((%s)%s %% (%s)%s)' % (ct, wide(t), a, wide(t), b2)
                 elif op == 'sdiv': e = '(%s)(%s / %s)' % (ct, scast(t, a), scast(t, b2))
@@ -577,7 +580,14 @@ def translate_func(name, rt, args, names, va, body):
                 rt_ = ptype(p); fty = None
                 if rt_.kind == 'func': fty = rt_; rt_ = fty.ret
                 elif rt_.kind == 'ptr' and rt_.to.kind == 'func' and not (p.peek('%') or p.peek('@')): pass
-                callee = p.name(); p.expect('(')
+                via_bitcast = False
+                if p.peek('bitcast'):
+                    # call through a constant bitcast of a function (llvm-link renamed a struct type on one side: same layout). Called
+                    # directly; pointer arguments go through void* so that the C compiler accepts the differently named pointee types.
+                    p.eat('bitcast'); p.expect('('); ptype(p); callee = p.name(); p.eat('to'); ptype(p); p.expect(')'); via_bitcast = True
+                else:
+                    callee = p.name()
+                p.expect('(')
                 cargs = []; atypes = []
                 if not p.eat(')'):
                     while True:
@@ -594,6 +604,9 @@ def translate_func(name, rt, args, names, va, body):
                             cargs.append(val(p, at)); atypes.append(at)
                         if p.eat(')'): break
                         p.expect(',')
+                if via_bitcast:
+                    cargs = [('(void*)' + a) if (a is not None and t_.kind == 'ptr') else a for a, t_ in zip(cargs, atypes)]
+                    fty = None
                 e = call_expr(callee, rt_, fty, cargs, atypes, loc, c)
                 if e is None: continue
                 if dest and rt_.kind != 'void': c.append('%s = %s;' % (define(dest, rt_), e))
@@ -747,9 +760,12 @@ def call_expr(callee, rt, fty, cargs, atypes, loc, c):
                 # CBMC's built-in models are exact for a symbolic length only when the destination is a byte array (or malloc'ed
                 # memory); such call sites are listed in the report (-> evidence) so that a reviewer can see which units rely on it
                 if not re.match(r'^\(\(uint64_t\)0x[0-9a-f]+ULL\)$', cargs[2]): SYMLEN_MEM.append(CURFN[0])
-            if n.startswith('llvm.memcpy'): return 'memcpy(%s, %s, %s)' % (cargs[0], cargs[1], cargs[2])
-            if n.startswith('llvm.memmove'): return 'memmove(%s, %s, %s)' % (cargs[0], cargs[1], cargs[2])
-            if n.startswith('llvm.memset'): return 'memset(%s, %s, %s)' % (cargs[0], cargs[1], cargs[2])
+            # symbolic length: a macro that the prelude maps to the libc name, or (Unit(cbmc_defines=['VERIF_MEM_LOOPS'])) to a byte loop
+            symlen = n.startswith('llvm.mem') and not re.match(r'^\(\(uint64_t\)0x[0-9a-f]+ULL\)$', cargs[2])
+            # (_C: constant length; mapped to the libc name unless VERIF_MEM_LOOPS_ALL is defined as well)
+            if n.startswith('llvm.memcpy'): return '%s(%s, %s, %s)' % ('VERIF_MEMCPY_N' if symlen else 'VERIF_MEMCPY_C', cargs[0], cargs[1], cargs[2])
+            if n.startswith('llvm.memmove'): return '%s(%s, %s, %s)' % ('VERIF_MEMMOVE_N' if symlen else 'VERIF_MEMMOVE_C', cargs[0], cargs[1], cargs[2])
+            if n.startswith('llvm.memset'): return '%s(%s, %s, %s)' % ('VERIF_MEMSET_N' if symlen else 'VERIF_MEMSET_C', cargs[0], cargs[1], cargs[2])
             m = re.match(r'llvm\.(cttz|ctlz|ctpop|bswap|umax|umin|smax|smin|fshl|fshr|usub\.sat|uadd\.sat|abs)\.i(\d+)', n)
             if m:
                 return 'I_%s_%s(%s)' % (m.group(1).replace('.', '_'), m.group(2), ', '.join(a for a in cargs if a is not None)[:10**6])
